@@ -33,7 +33,7 @@ MANIFEST_ENTRY = {
             "whatever accompanies them; a reference to an undeclared type is reported whatever else the library holds, and two "
             "declarations of one type or function block name are diagnosed (P0020), never collapsed (model of the late-bound type "
             "transformation, compared with it on the type facts). "
-            "For the whole pipeline this is tied by search: each fault kind is placed at every position among "
+            "Two files that hold the same text are two sources, both handed to the analysis under their own identifiers: the project never merges files by content (C03_equal_files_both_analyzed, on the project model whose shape is regenerated from project.rs). For the whole pipeline this is tied by search: each fault kind is placed at every position among "
             "valid companions, in every file order, with and without companions reusing its name.",
     "note": "Trusted: Coq kernel, extraction + driver, harness ops project / analyze / facts / latebound, the ironplcc binary runner. Of the "
             "late-bound transformations only the type-initializer one (undeclared and duplicate type names) is modelled. No axioms.",
